@@ -906,7 +906,9 @@ impl Router {
         // Prepare AcksRequest in tracker if router is operating in a
         // single node mode or force ack request for subscriptions
         if force_ack {
-            self.scheduler.reschedule(id, ScheduleReason::FreshData);
+            // the replies have to go out even while the connection waits for acks of its own
+            // (inflight window full): `IncomingAck` wakes it from every pause but `Busy`
+            self.scheduler.reschedule(id, ScheduleReason::IncomingAck);
         }
 
         // Notify waiting consumers only if there is publish data. During
